@@ -9,13 +9,13 @@ PLAN = {
     # prop: (mc cfg quick, mc cfg thorough, [gen cfgs quick], [gen cfgs thorough], sim cfg, level)
     "C14": ("MCProtected", "MCProtectedThorough", ["GenProtected"], ["GenProtectedThorough"], "GenProtectedSim", "model_checking"),
     "C15": ("MCProtected", "MCProtectedThorough", ["GenProtectedWipe"], ["GenProtectedWipeThorough", "GenProtected"], "GenProtectedSim", "model_checking"),
-    "C19": ("MCProtectedC19", "MCProtectedC19Thorough", ["GenProtectedC19"], ["GenProtectedC19Thorough"], "GenProtectedSimC19", "model_checking"),
+    "C19": ("MCProtectedC19", "MCProtectedC19Thorough", ["GenProtectedC19", "GenProtectedC19NA"], ["GenProtectedC19Thorough", "GenProtectedC19NA"], "GenProtectedSimC19", "model_checking"),
 }
 
 RULES = {
     "C14": "every behaviour of GenProtected.tla up to the depth bound (all constructors x both containers x 10 lengths, then every enabled operation sequence; handle 2 as clone target/bystander) plus random long behaviours from TLC -simulate; after every operation the page table of every allocation (rights + VM_LOCKED from /proc/self/smaps), guards, contents and VmLck are compared with the model, and raw accesses are probed in forked grandchildren",
-    "C15": "every behaviour of the wipe-focused model (data-carrying containers, fill/resize up/down/clone/lock/unlock/drop to the depth bound) plus random long behaviours; the release observer (hook H2, memory scrubbed at allocate) must see zero non-zero bytes and the modelled size for every release event, and every allocation must be released exactly once",
-    "C19": "every behaviour of the refusal model: lock budget k in {0..} (the k+1-th and all later mlock calls refused through an LD_PRELOAD interposer), every constructor and operation sequence to the depth bound; result class (Ok/Err/Panic) must equal the model's, bystander regions keep their page state, and everything is wiped and unlocked at the end",
+    "C15": "every behaviour of the wipe-focused model (data-carrying containers, fill/resize up/down/clone/lock/unlock/drop to the depth bound) plus random long behaviours; the release observer (hook H2, memory scrubbed at allocate) must see zero non-zero bytes and the modelled size for every release event, and every allocation must be released exactly once; blocks of 16 pages and more (GenProtectedWipeLarge), and every wipe behaviour again in a process that called mlockall (only the wipe oracles are active there)",
+    "C19": "every behaviour of the refusal model: lock budget k in {0..} (the k+1-th and all later mlock calls refused through an LD_PRELOAD interposer), every constructor and operation sequence to the depth bound; result class (Ok/Err/Panic) must equal the model's, bystander regions keep their page state, and everything is wiped and unlocked at the end; plus the lock requests the KERNEL refuses (a no-access region cannot be faulted in: GenProtectedC19NA, depth 5 over one handle) and decoders into locked containers (serde) under every budget",
 }
 
 
@@ -36,6 +36,20 @@ def run_prop(prop, tier):
             raise ToolError("%s produced only %d behaviours" % (cfg, n))
         total += n
         _replay_into(ck, prop, cf, os.path.join(wd, cfg), probe=True)
+    if prop == "C15":
+        # blocks of 16 pages and more, and the same behaviours again in a process that pinned itself in RAM
+        # (mlockall: every page locked whatever the library does) - only the wipe oracles are active there
+        cf = os.path.join(wd, "GenProtectedWipeLarge.ndjson")
+        g, n = gen_cases("GenProtectedWipeLarge", cf, name=prop + "large")
+        ck.require_tlc_ok(g, "GenProtectedWipeLarge")
+        if n < 50:
+            raise ToolError("GenProtectedWipeLarge produced only %d behaviours" % n)
+        total += 2 * n
+        _replay_into(ck, prop, cf, os.path.join(wd, "large"), probe=False)
+        _replay_into(ck, prop, cf, os.path.join(wd, "large_mlockall"), probe=False, mode="mlockall")
+        wl = os.path.join(wd, "GenProtectedWipe.ndjson")
+        if os.path.exists(wl):
+            _replay_into(ck, prop, wl, os.path.join(wd, "wipe_mlockall"), probe=False, mode="mlockall")
     # random long behaviours (spec-generated)
     cf = os.path.join(wd, "sim.ndjson")
     g, n = gen_cases(simcfg, cf, simulate="num=%d" % (4000 if thorough else 600), name=prop + "sim")
@@ -151,12 +165,17 @@ def _trace_validation(ck, prop, wd, runs):
     ck.cov["evaluations"] += len(evs)
 
 
-def _replay_into(ck, prop, cases, outprefix, probe):
-    rep = replay(cases, outprefix, nproc=min(14, NCPU), probe=probe)
+def _replay_into(ck, prop, cases, outprefix, probe, mode=None):
+    rep = replay(cases, outprefix, nproc=min(14, NCPU), probe=probe, mode=mode)
     by = split_failures(rep)
+    mine = list(by[prop])
+    if prop == "C19":
+        # "regions created earlier stay valid and correctly protected, and everything is still wiped and unlocked on drop":
+        # page-state, residue and wipe failures count for C19 when the behaviour contains a refused request
+        mine += [f for f in by["C14"] + by["C15"] if any(st.get("res") == "Err" for st in f["detail"].get("case", [])[1:])]
     rep2 = dict(rep)
-    rep2["failures"] = by[prop]
-    rep2["nfail"] = len(by[prop])
+    rep2["failures"] = mine
+    rep2["nfail"] = len(mine)
     ck.add_report(rep2)
     if by["DRIFT"]:
         d = by["DRIFT"][0]["detail"].get("divergence", {}).get("info", {})
